@@ -68,6 +68,9 @@ def compile_program(run, prog, kind, cache):
     for i, st in enumerate(prog["steps"]):
         if st["in"] not in ok or ("right" in st and st["right"] not in ok):
             continue
+        if st["verb"] == "collect":
+            run.counters[f"collect_not_followed:{kind}"] += 1
+            continue  # collect executes the query and yields a Polars table: execution belongs to C01/C12/C20, this check compiles
         ref_rejects = False
         real_exc = None
         try:
@@ -101,8 +104,13 @@ def compile_program(run, prog, kind, cache):
             else:
                 f = Finding("exc:" + kind, kind, i, f"verb raised {cls}: {str(e)[:300]}", verb=st["verb"], exc=cls)
                 yield f
+    # handles downstream of a collect() are Polars tables: build_query is documented to return None there
+    local = set()
+    for st in prog["steps"]:
+        if st["verb"] == "collect" or st["in"] in local:
+            local.add(st["out"])
     for h in prog.get("probes", []):
-        if h not in ok:
+        if h not in ok or h in local:
             continue
         texts = []
         for _ in range(2):
@@ -310,6 +318,32 @@ def execute(run, prop, shard):
                     return any(g.kind == f0.kind and g.exc == f0.exc for g in compile_program(run, q, kind, {}))
 
                 run.finding(f, prog, owned=True, reshrink=still)
+    # (c) directed corpora of other checks, compiled on all three dialects: the C03 operator catalogue (every
+    #     operator form with literals / nested operands), the C12 sized-type family and the C18 literal programs
+    if shard is None or shard[0] == (1 if shard[1] > 1 else 0):
+        from . import c03
+
+        corp = []
+        for j, (label, prog) in enumerate(itertools.chain(c03.cases(run.tier, run.seed), c03.random_nested("quick", run.seed))):
+            if run.tier == "thorough" or j % 3 == run.seed % 3:
+                corp.append((("c03", label), prog))
+        for j, prog in enumerate(c18.numeric_literal_programs()):
+            if run.tier == "thorough" or j % 4 == run.seed % 4:
+                corp.append((("c18num", j), prog))
+        for j in range(40 if run.tier == "quick" else 400):
+            try:
+                corp.append((("types", j), gen.gen_types(pipeline.case_seed(run.seed + 9, run.tier, 0, j))))
+            except Exception:
+                run.counters["generator_failures"] += 1
+        for tag, prog in corp:
+            run.case(prog, shape=("corpus",) + tuple(map(str, tag)))
+            run.counters[f"corpus_programs:{tag[0]}"] += 1
+            for kind in DIALECTS:
+                for f in compile_program(run, prog, kind, cache):
+                    def still(q, f0=f, kind=kind):
+                        return any(g.kind == f0.kind and g.exc == f0.exc for g in compile_program(run, q, kind, {}))
+
+                    run.finding(f, prog, owned=True, reshrink=still)
     for kind in DIALECTS:
         run.inconclusive_if(shard is None and run.counters[f"statements:{kind}"] < 50, f"fewer than 50 statements compiled on {kind}")
 
